@@ -124,10 +124,6 @@ func pickErrStatus(r *vc.Rand) int {
 
 func (x *g) genSchemes() {
 	kinds := []string{"basic", "apikey", "jwt", "oauth2", "apikey"}
-	if x.o.Runtime {
-		// two schemes of one kind in a service is a listed C01 finding (duplicate Auther method)
-		kinds = kinds[:4]
-	}
 	n := x.r.Range(1, 3)
 	if n > len(kinds) {
 		n = len(kinds)
@@ -463,7 +459,7 @@ func (x *g) genType(depth int, self string) *spec.Type {
 		}
 		x.s.AddFeature("map")
 		return &spec.Type{Kind: spec.Map, Key: key, Elem: x.genElem(depth+1, self)}
-	case c < 16 && x.o.Profile != "grpc" && !(x.o.Runtime && depth >= 1):
+	case c < 16 && x.o.Profile != "grpc" && !(x.o.Runtime && depth >= 3):
 		x.s.AddFeature("inline-object")
 		return x.genObject(depth+1, self)
 	case c < 19:
